@@ -378,7 +378,7 @@ func c06ScaleCheck(c *C06Case) []ev.Discrepancy {
 var hostile = []string{"\xff", "\xc3", "\xe2\x82", "\xf0\x9f\x98", "\x00", "\x01", "\x7f", "\r", "\r\n", "\n", "\t", "\"", "(", "[", ")", "]", "((((", "@", "@@", "=", "==", "|", "*", "!", ";", ":", "::",
 	"1E9999999", "1E-99999999", "1e400", "9999999999999999999999999999999", "0.00000000000000000000000000001", "1,2,3.4.5", "-", "+", "--", "$", "€", "💰", "\u200b", "\ufeff", " ",
 	"2024-01-15", "2024-13-45", "0000-00-00", "99999-1-1", "1/2", "include ", "account ", "commodity ", "P ", "Y ", "D ", "Y 99999999999999999999", "alias ", "apply account ", "comment\n", "end comment\n",
-	"format ", "  ", "    ", "{*,*}", "{*,*}{*,*}{*,*}{*,*}{*,*}{*,*}{*,*}{*,*}", "**/", "a:b", "expenses:food", "assets:cash  ", "EUR", "USD 1", "1 USD", "k:v", ", ", "tag:", "~ monthly", "= expenses", "\t\t"}
+	"format ", "  ", "    ", "{*,*}", "{*,*}{*,*}{*,*}{*,*}{*,*}{*,*}{*,*}{*,*}", "{0,1,2,3,4,5,6,7,8,9,a,b,c,d,e,f}", "**/", "a:b", "expenses:food", "assets:cash  ", "EUR", "USD 1", "1 USD", "k:v", ", ", "tag:", "~ monthly", "= expenses", "\t\t"}
 
 var hostileNumRe = regexp.MustCompile(`[0-9][0-9.,]*`)
 
@@ -571,6 +571,9 @@ var c06ScaleUnits = []struct{ unit, sep, pre, post string }{
 	{"account acc:%a", "\n", "", "\n2024-01-01 x\n    " + strings.Repeat("q", 4000)}, // many candidates x a long line before the cursor
 	{"{*,*}", "", "include ", ""},                                                    // brace alternatives: every combination is a pattern of its own
 	{"**/", "", "include ", "*.journal"},                                             // any-depth segments
+	{"x,", "", "include {", "y}{0,1,2,3,4,5,6,7,8,9}{0,1,2,3,4,5,6,7,8,9}*.journal"}, // many alternatives in one brace group, times those of the others
+	{" | a:b", "", "2024-01-01 shop", ""},                                            // a note with many "|"
+	{"a:|", "", "    ", ""},                                                          // "|" on a posting line
 }
 
 // TestC06Scale: the cost of a unit repeated 4k times must stay within x10 of k times.
